@@ -98,7 +98,7 @@ class Coop:
             self.cv.wait_for(lambda: self.turn == me)
             del self.parked[me]
 
-    def run(self, fns, timeout=60.0):
+    def run(self, fns, timeout=300.0):
         self.names = [f"coop-w{i}" for i in range(len(fns))]
         res = {}
 
@@ -243,7 +243,7 @@ class PreemptOnce:
                 co = frame.f_code
                 st["where"] = f"{co.co_filename[len(pkgdir):].lstrip('/')}:{co.co_name}:{frame.f_lineno}:{event}"
                 parked.set()
-                resume.wait(120.0)
+                resume.wait(900.0)
 
         def local(frame, event, arg):
             if event in events:
@@ -276,15 +276,15 @@ class PreemptOnce:
         ta = threading.Thread(target=go_a, name="preempt-a", daemon=True)
         tb = threading.Thread(target=go_b, name="preempt-b", daemon=True)
         ta.start()
-        if not parked.wait(120.0):
+        if not parked.wait(600.0):
             raise RuntimeError("preemption harness: task A neither parked nor finished")
         tb.start()
         tb.join(self.block_timeout)
         if tb.is_alive():
             st["b_blocked"] = True  # B waits for something A holds: a legal schedule continues with A
         resume.set()
-        ta.join(120.0)
-        tb.join(120.0)
+        ta.join(600.0)
+        tb.join(600.0)
         if ta.is_alive() or tb.is_alive():
             raise RuntimeError("preemption harness: dead-lock")
         return res["a"], res["b"], st
